@@ -204,6 +204,8 @@ def gen_history(rng, tier, flavour=None):
             lines.append(f"req 9 {now} old:0" + (" set:61:62" if rng.random() < 0.2 else ""))
         if kind == "files" and loc != "client" and rng.random() < 0.06:
             lines.append(f"gc {now}")
+        if kind.startswith("network") and loc != "client" and rng.random() < 0.15:
+            lines.append("drop")      # the session server's front-end restarts: the next operation finds a dead connection
     return lines, not backward
 
 
@@ -284,6 +286,13 @@ def special_histories(tier):
             for b in range(16):
                 h.append(f"req {b} {3200 + b} jar")
             H.append(h)
+    # network storage, connection dropped between requests (seeded C06-8: transmit reconnects but does not re-send):
+    # before a read, before an update, before a clear / reset, before the replay of a cleared identifier
+    for kind in ("network", "network2"):
+        for loc in ("server", "both"):
+            H.append([f"new {loc} {kind} 1 1000 20", "req 0 1000 jar set:6b:r41x30", "drop", "req 0 1001 jar", "req 0 1002 jar set:6b:r42x31", "drop",
+                      "req 0 1003 jar set:6b:r43x32", "req 0 1004 jar", "drop", "req 0 1005 jar clear", "req 9 1006 old:0", "req 0 1007 jar set:6b:r44x33",
+                      "drop", "req 0 1008 jar reset", "drop", "req 9 1009 old:0", "req 0 1010 jar", "drop", "drop", "req 0 1011 jar srv:1 set:61:62", "req 0 1012 jar"])
     # clear on a session that only exists client-side; replay of the old client cookie (inherent to client storage)
     H.append(["new both memory 1 100 2048", "req 0 1000 jar set:6b:76", "req 0 1001 jar clear", "req 9 1002 old:0", "req 9 1102 old:0"])
     # short_gc: more than five expired sessions, collected five at a time
